@@ -130,6 +130,8 @@ def run(repo: Repo, rep: Report, tier: str) -> None:
                  "helpers.endpoint_utils:_get_primary_response"):
         f = repo.func(spec)
         sig = priority_signature(f)
+        if any(r[0] == "unknown" for r in sig):
+            raise AnalysisError(f"R19.3: {f.qualname} contains a construct the selector normal form does not cover: `{[r for r in sig if r[0] == 'unknown'][0][1]}`")
         sub = f"{f.module.relpath}:{f.qualname} order-independence"
         # order-independent iff every rule before 'first' that can match more than one response is preceded by exact codes...
         prefix = [r for r in sig if r[0] == "eq"]
